@@ -1,7 +1,7 @@
 # Shared driver of the L-family checks: runs the shape set of the tier and files findings by category.
 from laylib import *
 
-CATS = {'C05': ('ref', 'layout', 'hang'), 'C17': ('listing',), 'C15': ('debug',), 'C10': ('crash', 'hang', 'partial-output', 'ub'), 'C11': ('uninit',)}
+CATS = {'C14': ('partial-output',), 'C05': ('ref', 'layout', 'hang'), 'C17': ('listing',), 'C15': ('debug',), 'C10': ('crash', 'hang', 'partial-output', 'ub'), 'C11': ('uninit',)}
 
 def shape_set(ck):
     N = 3 if ck.tier == 'quick' else 4
@@ -16,9 +16,10 @@ def replay(L, shape, vals):
     line = out.strip().split('\n')[0] if out.strip() else 'error no output'
     return line, concrete_check(L, shape, vals, line)
 
-def run_family(ck, pid, extra_shapes=()):
+def run_family(ck, pid, extra_shapes=(), only=None):
+    """only: run just these shapes instead of the tier's shape set"""
     L = Lay()
-    shapes = shape_set(ck) + list(extra_shapes)
+    shapes = list(only) if only is not None else shape_set(ck) + list(extra_shapes)
     t0 = time.time()
     results = run_shapes(shapes)
     cats = CATS[pid]
